@@ -29,11 +29,15 @@ RULE = ("a case = one option table (>= 1 option of every declared type + 1-2 *Po
         "x one history of <= 12 steps (assign / append / extend / insert / remove / pop / setitem / slice-setitem / "
         "save accepted / save rejected 513|552), option names spelled in random case; class 'midack' additionally makes "
         "one edit between save() and its ack; class 'alias' assigns to a list option the object read from ANOTHER list "
-        "option of this or of a second TorConfig, saves, then edits target and source in place. Distinct = hash of (table, steps). Non-trivial = at least one SETCONF line "
+        "option of this or of a second TorConfig, saves, then edits target and source in place; class 'overlap' has 2-3 "
+        "save() calls outstanding at once (edits between them and after the last), answered in order, each accepted or "
+        "rejected independently. Distinct = hash of (table, steps). Non-trivial = at least one SETCONF line "
         "was decoded and compared with the reference pending set.")
 ASSUMPTIONS = [
     "String / Filename values and LineList elements include double quotes, backslashes, tabs and leading/trailing blanks "
-    "(decoded from the wire by the kvline reference); CR/LF and other control characters are C12's subject",
+    "and control characters 0x01-0x1f/0x7f followed by digits or letters (decoded from the wire by the kvline "
+    "reference); CR and LF inside values are C12's subject",
+    "a SETCONF written while an earlier one is unanswered may or may not repeat the options the earlier one carries",
     "FakeTor does not echo CONF_CHANGED for the controller's own SETCONF here (that path is C11's)",
     "in-place mutation of an option that also has a pending whole-value assignment is not generated (DESIGN C10 L)",
     "comma-list options are judged on the wire form only: one joined value or one item per element (DESIGN C10 L)",
@@ -63,14 +67,15 @@ ANCHORS = [
 FLOORS = {
     "quick": {"evaluations": 450, "setconf_lines_decoded": 800, "quiet_checks": 2000, "saves_rejected": 130,
               "reads_compared": 1300, "second_save_checks": 600, "midack_edits": 80, "inplace_ops": 500,
-              "escaped_values_decoded": 80, "assigned_from_other_option": 150,
+              "escaped_values_decoded": 80, "assigned_from_other_option": 150, "overlapping_saves": 120,
+              "overlap_outcomes_checked": 50,
               "reach:txtorcon.torconfig:TorConfig.save": 1500,
               "reach:txtorcon.torconfig:TorConfig.mark_unsaved": 500,
               "reach:txtorcon.torconfig:TorConfig._save_completed": 650,
               "reach:txtorcon.torcontrolprotocol:TorControlProtocol.set_conf": 800},
     "thorough": {"evaluations": 9000, "setconf_lines_decoded": 15000, "quiet_checks": 40000, "saves_rejected": 2500,
                  "reads_compared": 25000, "second_save_checks": 10000, "midack_edits": 1500, "inplace_ops": 9000,
-                 "escaped_values_decoded": 1500, "assigned_from_other_option": 1500,
+                 "escaped_values_decoded": 1500, "assigned_from_other_option": 1500, "overlapping_saves": 2500,
                  "reach:txtorcon.torconfig:TorConfig.save": 30000,
                  "reach:txtorcon.torcontrolprotocol:TorControlProtocol.set_conf": 15000},
 }
@@ -204,7 +209,18 @@ NASTY = ['say "hi"', '"quoted"', 'C:\\tor\\data', 'back\\slash "and" quote', 'ta
          'x=\\"y\\"', "single 'quotes'", '\\"', 'two  spaces', '#not a comment', 'semi;colon']
 
 
+CTRL = ['bell\x0712', '\x011', 'a\x1f7z', '\x7f0', 'x\x0bq', '\x078', 'tab\x0934', '\x1b[0m', 'nul-ish\x01', '\x0c\x0e5 6']
+
+
 def nasty(rnd, plain):
+    if rnd.random() < 0.25:
+        # control characters other than CR/LF, followed by octal digits / '8' / letters (octal escapes on the wire)
+        c = rnd.choice(CTRL)
+        return rnd.choice([c, plain + c, c + plain, plain + " " + c + rnd.choice("01234567")])
+    return _nasty(rnd, plain)
+
+
+def _nasty(rnd, plain):
     """string-like values that need Tor's QuotedString escapes on the wire (or are easy to mangle)"""
     r = rnd.random()
     if r < 0.5:
@@ -408,6 +424,76 @@ def gen_alias_case(rnd, table):
     return steps
 
 
+def gen_overlap_case(rnd, table):
+    m = Model(table)
+    steps = []
+
+    def edits(lo, hi):
+        out = []
+        for _ in range(rnd.randint(lo, hi)):
+            st = gen_assign_from(rnd, m) if rnd.random() < 0.04 else None
+            st = st or gen_edit(rnd, m)
+            m.edit(st)
+            out.append(st)
+        return out
+    aba = None
+    if rnd.random() < 0.25:
+        # one option goes A -> (save) -> B -> (save) -> A while both saves are outstanding
+        n = rnd.choice([x for x in m.order if m.kind(x) == "scalar"])
+        for _ in range(30):
+            a, b = gen_assign_value(rnd, m.types[n]), gen_assign_value(rnd, m.types[n])
+            if validated(m.types[n], a) != validated(m.types[n], b) and validated(m.types[n], a) != m.view[n]:
+                aba = (n, a, b)
+                break
+    steps.extend(edits(1, 3))
+    if aba:
+        st = {"op": "assign", "name": CT.anycase(rnd, aba[0]), "opt": aba[0], "value": aba[1]}
+        m.edit(st)
+        steps.append(st)
+    for _ in range(5):
+        if m.must():
+            break
+        steps.extend(edits(1, 1))
+    nsaves = rnd.choice([2, 2, 2, 3])
+    saves = []
+    snaps = []
+
+    def reassign():
+        """assign again an option that an outstanding save carries: to the value in flight, or to another one"""
+        cands = [n for sn in snaps for n in sn if m.kind(n) == "scalar"]
+        if not cands:
+            return []
+        n = rnd.choice(cands)
+        typ = m.types[n]
+        carried = [sn[n][1] for sn in snaps if n in sn]
+        for _ in range(20):
+            v = gen_assign_value(rnd, typ)
+            same = validated(typ, v) in carried
+            if same == (rnd.random() < 0.6):
+                break
+        st = {"op": "assign", "name": CT.anycase(rnd, n), "opt": n, "value": v}
+        m.edit(st)
+        return [st]
+    for i in range(nsaves):
+        snaps.append(dict(m.pending))
+        last = i == nsaves - 1
+        eds = edits(0, 1) if last else edits(1, 2)
+        if aba and i < 2:
+            st = {"op": "assign", "name": CT.anycase(rnd, aba[0]), "opt": aba[0], "value": aba[2 if i == 0 else 1]}
+            m.edit(st)
+            eds.append(st)
+        elif rnd.random() < 0.3:
+            eds += reassign()
+        saves.append({"reply": rnd.choice(["ok", "ok", 513, 552]), "edits_after": eds})
+    steps.append({"op": "overlap", "saves": saves})
+    for sv, snap in zip(saves, snaps):
+        if sv["reply"] == "ok":
+            m.ack(snap)
+    steps.extend(edits(0, 2))
+    steps.append({"op": "save", "reply": "ok"})
+    return steps
+
+
 def gen_reply(rnd):
     r = rnd.random()
     return "ok" if r < 0.68 else (513 if r < 0.84 else 552)
@@ -417,6 +503,8 @@ def gen_case(rnd, mode):
     table = c10_table(rnd)
     if mode == "alias":
         return {"mode": mode, "table": table, "steps": gen_alias_case(rnd, table)}
+    if mode == "overlap":
+        return {"mode": mode, "table": table, "steps": gen_overlap_case(rnd, table)}
     m = Model(table)
     steps = []
     if mode == "midack":
@@ -482,6 +570,9 @@ def vfeat(v):
             f.add("tab")
         if x != x.strip(" "):
             f.add("edge-blank")
+        for i, ch in enumerate(x):
+            if (ord(ch) < 0x20 and ch not in "\t\r\n") or ord(ch) == 0x7f:
+                f.add("ctrl-then-octal-digit" if x[i + 1:i + 2] and x[i + 1] in "01234567" else "ctrl")
     return "+".join(sorted(f))
 
 
@@ -504,6 +595,7 @@ class Run(object):
         self.m = Model(case["table"])
         self.rejected_before = False
         self.decoded = 0
+        self.overlap_tag = None
         self.other = None            # a second, never edited TorConfig over the same table (source of values)
 
     def V(self, clause, cls, detail):
@@ -511,11 +603,13 @@ class Run(object):
         raise Stop()
 
     def cls(self, n, *extra):
-        parts = [self.m.klass(n)]
+        parts = [self.m.kind(n) if self.overlap_tag else self.m.klass(n)]
         if n in self.m.pending:
             parts.append(self.m.pending[n][0])
         parts.extend(extra)
-        if self.rejected_before:
+        if self.overlap_tag:
+            parts.append("after-" + self.overlap_tag)
+        elif self.rejected_before:
             parts.append("after-rejection")
         return "+".join(parts)
 
@@ -580,11 +674,13 @@ class Run(object):
         data = b"".join(x for _, x in link.transport.writes[n0:])
         return out, data
 
-    def judge_wire(self, data, expected, tor):
-        """the bytes one save() wrote vs the reference pending set `expected`"""
+    def judge_wire(self, data, expected, tor, optional=()):
+        """the bytes one save() wrote vs the reference pending set `expected`; options in `optional`
+        (already carried by an earlier, still unanswered SETCONF) may or may not be named again"""
         m = self.m
+        self.last_groups = {}
         expected = {n: (hv[0], wire(hv[1]), hv[2]) for n, hv in expected.items()}
-        must = {n: hv for n, hv in expected.items() if hv[1] != wire(m.view[n])}
+        must = {n: hv for n, hv in expected.items() if hv[1] != wire(m.view[n]) and n not in optional}
         any_n = sorted(must)[0] if must else (sorted(expected)[0] if expected else None)
         if not expected:
             self.rec.count("empty_save_checks")
@@ -619,6 +715,7 @@ class Run(object):
                 self.V("setconf-unknown-option", line_class(expected), {"line": line, "key": k})
             groups.setdefault(c, []).append(v)
         self.rec.seen("options_per_setconf", str(len(groups)))
+        self.last_groups = groups
         for c, vals in groups.items():
             if c not in expected:
                 self.V("unchanged-option-sent", m.klass(c), {"line": line, "option": c, "pending": sorted(expected)})
@@ -697,7 +794,8 @@ class Run(object):
                     if not ok and (why == "type" or (store and str(read) == store[-1])):
                         ok = True         # value types are C11's subject
                     if not ok:
-                        self.V("read-after-ack", m.klass(n), {"option": n, "read": repr(read), "store": store})
+                        self.V("read-after-ack", (m.kind(n) + "+after-" + self.overlap_tag) if self.overlap_tag else m.klass(n),
+                               {"option": n, "read": repr(read), "store": store})
                 else:
                     got = [str(x) for x in read if x != "DEFAULT"] if isinstance(read, list) else None
                     # a cleared option falls back to Tor's default: [] and the default are both "the saved value"
@@ -727,6 +825,127 @@ class Run(object):
             self.V("second-save-wrote", "nothing-pending",
                    {"written": b"".join(d for _, d in link.transport.writes[n0:])})
 
+    def overlap(self, st, cfg, tor, link, spell):
+        """2-3 save() calls outstanding at once: save, edits, save, [edits, save], [edits]; then Tor answers
+        them in order, each accepted or rejected independently"""
+        m, rec = self.m, self.rec
+        saves = st["saves"]
+        pattern = "-".join(str(sv["reply"]) for sv in saves)
+        trailing = bool(saves[-1]["edits_after"])
+        rec.seen("overlap_patterns", pattern + ("+trailing-edit" if trailing else ""))
+        # structural class: was an option assigned, while saves were outstanding, a value equal to one that an
+        # outstanding SETCONF carries for it?  (then "what was sent" and "what is pending" are easy to confuse)
+        carried, again = {}, False
+        mm = Model(self.case["table"])
+        mm.view, mm.pending, mm.serial = dict(m.view), dict(m.pending), m.serial
+        for sv in saves:
+            for n, hv in mm.pending.items():
+                carried.setdefault(n, []).append((wire(hv[1]), hv[2]))
+            for ed in sv["edits_after"]:
+                mm.edit(ed)
+                n = ed["opt"]
+                if any(w == wire(mm.pending[n][1]) and ser != mm.pending[n][2] for w, ser in carried.get(n, [])):
+                    again = True      # assigned / edited back to a value an outstanding SETCONF carries
+        if again:
+            cls = "overlapping-saves+value-in-flight-assigned-again"
+        else:
+            cls = "overlapping-saves" + ("+a-save-rejected" if any(sv["reply"] != "ok" for sv in saves) else "") + \
+                ("+trailing-edit" if trailing else "")
+        self.overlap_tag = cls
+        rec.seen("overlap_classes", cls)
+        info = []              # per save: expected snapshot, outcome list, optional names
+        inflight = {}          # option -> serial carried by an unanswered SETCONF
+        del tor.scripted[:]
+        nlines0 = len(tor.lines)
+        for i, sv in enumerate(saves):
+            expected = dict(m.pending)
+            optional = {n for n, hv in expected.items() if inflight.get(n) == hv[2]}
+            n0 = len(link.transport.writes)
+            out = []
+            try:
+                cfg.save().addBoth(out.append)
+            except Exception as e:
+                self.V("save-raised", cls, {"exc": repr(e)})
+            data = b"".join(x for _, x in link.transport.writes[n0:])
+            ent = {"expected": expected, "out": out, "optional": optional, "reply": sv["reply"], "groups": None}
+            if i == 0:
+                if self.judge_wire(data, expected, tor):
+                    ent["groups"] = self.last_groups
+            elif data:
+                self.V("write-while-save-outstanding", cls, {"written": data})
+            info.append(ent)
+            for n, hv in expected.items():
+                inflight[n] = hv[2]
+            for ed in sv["edits_after"]:
+                self.do_edit(ed, cfg, link, where="between-save-and-ack")
+                spell[ed["opt"]] = ed["name"]
+                rec.count("overlap_edits")
+        rec.count("overlapping_saves", len(saves))
+        # Tor's answers, in order (one scripted entry per SETCONF that will arrive)
+        for ent in info:
+            if ent["expected"]:
+                r = ent["reply"]
+                tor.script("SETCONF", None if r == "ok" else (r, [("end", REJECTIONS[r])]))
+        link.pump()
+        del tor.scripted[:]
+        later = [l for l in tor.lines[nlines0:] if l.upper().startswith("SETCONF")]
+        if info[0]["groups"] is not None or (info[0]["expected"] and later):
+            later = later[1:]          # the first save's own line (already judged)
+        waiting = [ent for ent in info[1:] if ent["expected"]]
+        if len(later) > len(waiting):
+            self.V("save-wrote-several-lines", cls, {"lines": later})
+        if len(later) < len(waiting):
+            waiting = [ent for ent in waiting
+                       if any(hv[1] != m.view[n] and n not in ent["optional"] for n, hv in ent["expected"].items())]
+            if len(later) != len(waiting):
+                self.V("changed-option-missing", cls, {"lines": later, "saves_with_changes": len(waiting)})
+        # acks in order
+        li = 0
+        for i, ent in enumerate(info):
+            if i > 0 and ent in waiting:
+                line = later[li]
+                li += 1
+                if self.judge_wire(line.encode("latin1") + b"\r\n", ent["expected"], tor, ent["optional"]):
+                    ent["groups"] = self.last_groups
+            out = ent["out"]
+            from twisted.python.failure import Failure
+            if len(out) != 1:
+                self.V("save-deferred-fired-%d-times" % len(out), cls, {"save": i})
+            failed = isinstance(out[0], Failure)
+            if ent["groups"] is None:
+                continue
+            rec.count("save_outcomes_seen")
+            if ent["reply"] == "ok":
+                rec.count("saves_accepted")
+                if failed:
+                    self.V("accepted-save-failed", cls, {"save": i, "err": repr(out[0].value)})
+                m.ack({n: ent["expected"][n] for n in ent["groups"]})
+            else:
+                rec.count("saves_rejected")
+                self.rejected_before = True
+                if not failed:
+                    self.V("rejected-save-succeeded", cls, {"save": i})
+        # what Tor holds now is what the accepted SETCONFs carried, in order
+        touched = set()
+        for ent in info:
+            touched.update(ent["groups"] or ())
+        for n in sorted(touched):
+            if m.kind(n) == "commalist":
+                continue
+            v = m.view[n]
+            want = wire(v) if isinstance(v, list) else ([v] if v is not None else [])
+            got = tor.conf.get(n) or list(m.defaults.get(n) or [])
+            if got != want and not (want == [] ):
+                self.V("store-differs-from-accepted-saves", cls, {"option": n, "store": got, "want": want})
+        must = m.must()
+        rec.count("overlap_outcomes_checked")
+        if must and not cfg.needs_save():
+            self.V("change-lost", cls, {"still_pending_per_reference": {k: v[1] for k, v in must.items()}})
+        if not m.pending and cfg.needs_save():
+            self.V("needs-save-true-after-ack", cls, {"unsaved": repr(dict(cfg.unsaved))[:300]})
+        if not m.pending:
+            self.second_save(cfg, tor, link)
+
     def run(self):
         case, rec, m = self.case, self.rec, self.m
         cfg, fail, proto, tor, link = CT.boot(case["table"])
@@ -740,6 +959,9 @@ class Run(object):
                 if st["op"] in ("assign", "inplace"):
                     self.do_edit(st, cfg, link)
                     spell[st["opt"]] = st["name"]
+                    continue
+                if st["op"] == "overlap":
+                    self.overlap(st, cfg, tor, link, spell)
                     continue
                 reply = st["reply"]
                 expected = dict(m.pending)
@@ -801,8 +1023,9 @@ def replay(case, rec):
 
 def plan(tier, seed):
     if tier == "quick":
-        return [{"mode": "seq", "n": 300} for _ in range(11)] + [{"mode": "midack", "n": 300} for _ in range(3)] + \
-            [{"mode": "alias", "n": 300} for _ in range(2)]
+        return [{"mode": "seq", "n": 300} for _ in range(10)] + [{"mode": "midack", "n": 300} for _ in range(2)] + \
+            [{"mode": "alias", "n": 300} for _ in range(2)] + [{"mode": "overlap", "n": 300} for _ in range(2)]
     return [{"mode": "seq", "n": 3200, "timeout_s": 3000} for _ in range(26)] + \
            [{"mode": "midack", "n": 3200, "timeout_s": 3000} for _ in range(6)] + \
-           [{"mode": "alias", "n": 3200, "timeout_s": 3000} for _ in range(4)]
+           [{"mode": "alias", "n": 3200, "timeout_s": 3000} for _ in range(4)] + \
+           [{"mode": "overlap", "n": 3200, "timeout_s": 3000} for _ in range(4)]
